@@ -29,7 +29,7 @@ KANI_UNITS = {"dewey", "pkgname", "pattern", "plist", "distinfo", "summary"}
 
 def _stability(pid, cfg, repo, root):
     out = []
-    build = os.path.join(root, "build", pid + "_stab")
+    build = os.path.join(root, "build", pid + "_stab" + ("" if os.path.abspath(repo) == "/repo" else "-%d" % os.getpid()))
     variants = [("seed=11", ["--smt-option", "smt.random_seed=11"]),
                 ("seed=23", ["--smt-option", "smt.random_seed=23"]),
                 ("rlimit=5 (half)", ["--rlimit", "5"])]
